@@ -149,7 +149,8 @@ def build_cells():
         cells.append((f"MaxAny:{t}:{s[:16]}", f"{s}.Max()", "double"))
         # seeds that are not literals: an int-typed method value, a count, an int method with a declared tree type (the type belongs to the method's
         # own leaf, not to what is folded from it)
-        for seed, ts in (("j.nTrk()", "int"), ("j.constituents().Count()", "int"), ("j.nRaw()", "int")):
+        for seed, ts in (("j.nTrk()", "int"), ("j.constituents().Count()", "int"), ("j.nRaw()", "int"), ("-(j.constituents().Count())", "int"),
+                         ("-(2.5 if j.nTrk() > 1 else 5.0)", "double"), ("+(j.constituents().Count() + 1)", "int")):
             cells.append((f"AggSeed+:{t}:{seed[:12]}:{s[:16]}", f"{s}.Aggregate({seed}, lambda acc, v: acc + v)", wider(ts, t)))
         for seed, ts in (("0", "int"), ("10", "int"), ("0.5", "double"), ("2.0", "double")):
             cells.append((f"Agg+:{t}:{seed}:{s[:16]}", f"{s}.Aggregate({seed}, lambda acc, v: acc + v)", wider(ts, t)))
